@@ -895,6 +895,21 @@ func c17Guards(p *Prog, r *Report) {
 			}
 			return nil, false
 		}
+		// locals computed before the loop (limit := u.maxCount) are evaluated first, best effort
+		if loop.owner != nil && loop.owner.Decl != nil && loop.owner.Decl.Body != nil {
+			for _, st := range loop.owner.Decl.Body.List {
+				if st.End() > loop.body.Pos() {
+					break
+				}
+				if as, ok := st.(*ast.AssignStmt); ok && len(as.Lhs) == 1 && len(as.Rhs) == 1 {
+					if o := objOf(info, as.Lhs[0]); o != nil {
+						if v, err := env.Eval(as.Rhs[0]); err == nil && v != nil && v.C != nil {
+							env.Vars[o] = v
+						}
+					}
+				}
+			}
+		}
 		visited, _, werr := body.WalkPath(env)
 		if werr != nil {
 			return false, false, false, false, false, werr
@@ -910,15 +925,19 @@ func c17Guards(p *Prog, r *Report) {
 					removes = true
 				}
 			}
-			if as, ok := a.(*ast.AssignStmt); ok && len(as.Lhs) == 1 {
-				if sel, ok := as.Lhs[0].(*ast.SelectorExpr); ok {
+			if as, ok := a.(*ast.AssignStmt); ok && len(as.Lhs) == len(as.Rhs) {
+				for i := range as.Lhs {
+					sel, ok := as.Lhs[i].(*ast.SelectorExpr)
+					if !ok {
+						continue
+					}
 					switch sel.Sel.Name {
 					case "Count":
-						if v, ok := constInt(info, as.Rhs[0]); ok && v == 0 {
+						if v, ok := constInt(info, as.Rhs[i]); ok && v == 0 {
 							resetCount = true
 						}
 					case "Name":
-						if c, ok := ast.Unparen(as.Rhs[0]).(*ast.CallExpr); ok && p.callIs(fi.Pkg, c, kGenerate) {
+						if c, ok := ast.Unparen(as.Rhs[i]).(*ast.CallExpr); ok && p.callIs(fi.Pkg, c, kGenerate) {
 							newName = true
 						}
 					case "Root":
@@ -1000,6 +1019,9 @@ func c17Guards(p *Prog, r *Report) {
 			good = false
 			detail = fmt.Sprintf("rotation at %d entries: count reset=%v, fresh name=%v, same root=%v", cnt, reset, newName, sameRoot)
 		}
+	}
+	if !good && detail == "" {
+		return // not evaluable: reported as undecided above
 	}
 	r.Check(good, "C17.c", kDirGet+"#rotation-guard", p.pos(dirLoop.node), "rotate iff count >= limit; fresh name, same root, count 0", "the rotation guard is wrong ("+detail+"): a directory at its limit receives another file, or directories are rotated early")
 	// order Remove -> Create within the rotation body
